@@ -423,6 +423,14 @@ class DictGen:
             items = list(o.items())
             r.shuffle(items)
             o = dict(items)
+            if r.random() < 0.5:
+                # ... and the entries INSIDE a section (insertion order is part of what evaluation can observe)
+                secs = [k for k, v in o.items() if isinstance(v, dict) and len(v) > 1 and k != "LABREA"]
+                if secs:
+                    k = r.choice(secs)
+                    inner = list(o[k].items())
+                    r.shuffle(inner)
+                    o[k] = dict(inner)
         elif m == "sibling":
             secs = [k for k, v in o.items() if isinstance(v, dict) and k not in NEVER_KEYS and k != "LABREA"]
             if secs:
